@@ -15,7 +15,7 @@ REACTIONS = {
     'r_delay': (['B'], [], 'massaction', {'k': 0.6}, 'fixed', [], ['C'], {'delay': 0.3}),
     'r_gdelay': (['A'], [], 'massaction', {'k': 0.7}, 'gaussian', [], ['B'], {'mean': 0.3, 'std': 0.2}),
 }
-OPS = ['species', 'r_ma', 'r_hill', 'r_gen', 'r_delay', 'r_gdelay', 'r_bad', 'param', 'rule', 'rule_dt', 'setp', 'setps', 'sets', 'init', 'iface', 'iface_safe',
+OPS = ['species', 'r_ma', 'r_hill', 'r_gen', 'r_delay', 'r_gdelay', 'r_bad', 'rule_bad', 'param', 'rule', 'rule_dt', 'setp', 'setps', 'sets', 'init', 'iface', 'iface_safe',
        'sim_det', 'sim_ssa', 'sim_safe', 'sim_vol', 'sim_delay', 'sim_delayvol', 'sim_iface', 'sim_iface_det', 'other_det', 'seed']
 
 
@@ -61,6 +61,18 @@ def apply(m, sh, op, ctx_state, c, case):
             pass
         else:
             c.violation('C08/rejected-edit-accepted', 'create_reaction accepted %r' % (bad,), case)
+        edited = True
+    elif op == 'rule_bad':
+        # a rule that is rejected (its right-hand side cannot be parsed; an additive rule over a species that does not exist)
+        n_bad = ctx_state['bad_rule'] = ctx_state.get('bad_rule', 0) + 1
+        # (an unknown *name* in an assignment is accepted as a parameter to be given a value later, so that is not a rejection)
+        typ, eq = ('assignment', 'B = A +* 2') if n_bad % 2 else ('additive', 'B = NoSuchSpecies + A')
+        try:
+            m.create_rule(typ, {'equation': eq})
+        except Exception:
+            pass
+        else:
+            c.violation('C08/rejected-edit-accepted', 'create_rule accepted %r' % eq, case)
         edited = True
     elif op in REACTIONS:
         rx = REACTIONS[op]
@@ -287,7 +299,7 @@ def run(ctx):
     pmap(check, hists, ctx, nshards=512)
     ctx.bounds = dict(history_length=L, alphabet=OPS, histories=len(hists))
     ctx.rule = ('E3: every operation sequence up to the length bound over {add species; add a mass-action / proportional-Hill (named parameters) / '
-                'general / fixed-delay / Gaussian-delay reaction; an add-reaction call that is rejected; add a parameter; add a species-assigning repeated rule; add a dt counter rule (not idempotent); set a parameter; set a species value; '
+                'general / fixed-delay / Gaussian-delay reaction; an add-reaction call and an add-rule call that are rejected; add a parameter; add a species-assigning repeated rule; add a dt counter rule (not idempotent); set a parameter; set a species value; '
                 'py_initialize; build and keep a plain / safe interface; simulate through py_simulate_model in deterministic, SSA, safe, volume '
                 'delay and delay+volume mode; simulate (SSA and deterministic) through the kept interface while it is current; integrate an unrelated model in between; seed} is applied to a real Model while a shadow '
                 'definition is maintained. After every history: seeded SSA / safe / volume / delay trajectories (2 seeds + a scripted stream), '
